@@ -161,8 +161,134 @@ def check_C01(tier, seed):
     return o.finish()
 
 
+# ---------------------------------------------------------------------------
+# C02: the machine's unchecked contracts, on all paths of the real compiler's output
+# ---------------------------------------------------------------------------
+def optab_file(wd):
+    f = os.path.join(wd, "optab.json")
+    with open(f, "w") as fh:
+        fh.write(core.run_nlh(["optable"]))
+    return f
+
+
+def corrupt_bc(rec, k):
+    r = copy.deepcopy(rec)
+    code = r["bc"]["code"]
+    r.pop("steps", None)
+    if k % 3 == 0:
+        r["bc"]["code"] = code[:-1]                 # the final Halt is gone: main runs off its end
+        r["_corruption"] = "drop-halt"
+    elif k % 3 == 1:
+        code[0] = 200                               # not an opcode
+        r["_corruption"] = "undefined-opcode"
+    else:
+        r["bc"]["consts"] = []                      # every constant index is out of range
+        if not any(True for _ in code):
+            return None
+        r["_corruption"] = "no-constants"
+        r["_needs_const"] = True
+    return r
+
+
+def bc_leg(o, name, n, seed, residue_is_violation=False, timeout=1500):
+    t0 = time.time()
+    shards = max(1, min(core.NCPU, n // 400))
+    wd = core.workdir(f"{o.prop}_{name}")
+    optab = optab_file(wd)
+    per = (n + shards - 1) // shards
+    stats = []
+
+    def gen(i):
+        f = os.path.join(wd, f"bc{i}.ndjson")
+        p = core.subprocess.run([core.NLH, "gen-bc", "--seed", str(seed * 1013 + i), "--n", str(per),
+                                 "--first-id", str(i * 1000000 + 1), "--out", f],
+                                capture_output=True, text=True, timeout=1800)
+        if p.returncode != 0:
+            raise ToolError("gen-bc failed: " + p.stderr[-1500:])
+        try:
+            stats.append(json.loads(p.stderr.strip().splitlines()[-1]))
+        except Exception:
+            pass
+        return f
+    files = core.parallel(gen, list(range(shards)))
+    files = [f for f in files if os.path.getsize(f) > 0]
+    results = run_tv_shards(files, "NlBcSafe.tla", "NlBcSafe.cfg", wd, timeout=timeout,
+                            extra_env={"OPTAB": optab})
+    counts = {}
+    agreeing = []
+    nrec = 0
+    instrs = 0
+    for f, r in zip(files, results):
+        if r.violated:
+            raise ToolError(f"NlBcSafe internal invariant {r.violated} violated on {f}")
+        o.add_tlc(r)
+        recs = {x["id"]: x for x in core.read_ndjson(f)}
+        srcs = {x["id"]: x["text"] for x in core.read_ndjson(f + ".src")}
+        nrec += len(recs)
+        if len(r.verdicts) != len(recs):
+            raise ToolError(f"{name}: {len(r.verdicts)} verdicts for {len(recs)} records in {f}")
+        for v in r.verdicts:
+            key = v["class"] + ":" + v["rule"]
+            counts[key] = counts.get(key, 0) + 1
+            instrs += v.get("instrs", 0)
+            rec = recs[v["id"]]
+            text = srcs.get(v["id"], "")
+            bad = v["class"] == "mismatch" or (v["class"] == "residue" and residue_is_violation)
+            if bad:
+                sig = sig_of(name, v, rec, text)
+                sig["classes"] = sorted({x["class"] for x in v.get("viol", [])})
+                o.violation(sig, {"text": text, "viol": v.get("viol"), "obs": rec.get("obs"),
+                                  "code": rec["bc"]["code"], "record_file": f, "id": v["id"],
+                                  "spec_module": "NlBcSafe.tla", "cfg": "NlBcSafe.cfg"})
+            else:
+                if v["class"] == "agree":
+                    agreeing.append(rec)
+                if len(o.samples) < 5 and len(text) < 300:
+                    o.samples.append({"leg": name, "text": text, "verdict": key,
+                                      "instructions": v.get("instrs"), "abstract_states": v.get("visited")})
+            o.traces += 1
+    tried = rejected = 0
+    if agreeing:
+        rng = random.Random(seed)
+        pick = rng.sample(agreeing, min(12, len(agreeing)))
+        bad = []
+        for k, r in enumerate(pick):
+            c = corrupt_bc(r, k)
+            if c is not None and not (c.get("_needs_const") and not any(b == 0 for b in c["bc"]["code"][:1])):
+                bad.append(c)
+        bf = os.path.join(wd, "corrupt.ndjson")
+        core.write_ndjson(bf, bad)
+        rr = core.tlc_or_die("NlBcSafe.tla", "NlBcSafe.cfg", env={"RECS": bf, "OPTAB": optab}, workdir_=wd)
+        tried = len(bad)
+        rejected = sum(1 for v in rr.verdicts if v["class"] == "mismatch")
+        if rejected != tried:
+            byid = {b["id"]: b for b in bad}
+            raise ToolError(f"{name}: sensitivity self-test failed: corrupted bytecode accepted: "
+                            f"{[(v['id'], byid[v['id']]['_corruption']) for v in rr.verdicts if v['class'] != 'mismatch']}")
+    o.legs.append({"leg": name, "records": nrec, "verdicts": counts, "instructions_verified": instrs,
+                   "inputs": stats[:4], "sensitivity_tried": tried, "sensitivity_rejected": rejected,
+                   "wall_s": round(time.time() - t0, 1)})
+
+
+def check_C02(tier, seed):
+    o = Outcome("C02", tier, seed, "model_checking")
+    o.assumptions = [
+        "the opcode table (byte, name, operand widths) exported by the implementation is the one the machine dispatches on",
+        "the per-opcode stack effect stated in NlBcSafe is bound to the real machine by the recorded dispatch events (vm-effect rule)",
+        "array bounds of Vec-indexed accesses (globals) are checked by Rust itself and are not part of the unchecked contract",
+    ]
+    n = size(tier, 12000, 400000)
+    bc_leg(o, "all-paths", n, seed)
+    o.extra["exhaustive"] = True
+    o.extra["rule"] = ("per compiled program the abstract machine (region, ip, height) is explored completely "
+                       "(all paths, both branches of every conditional jump); programs are generated ones, "
+                       "token edits of them and random token sequences that the front end accepts")
+    return o.finish()
+
+
 CHECKS = {
     "C01": check_C01,
+    "C02": check_C02,
 }
 
 
